@@ -134,7 +134,8 @@ def _relies_on_collection_to_bytes(S, T):
 
     from pydra.utils.typing import TypeParser
 
-    nc = list(TypeParser.NOT_COERCIBLE_DEFAULT) + [(list, bytes), (tuple, bytes), (cabc.Set, bytes)]
+    nc = list(TypeParser.NOT_COERCIBLE_DEFAULT) + [(list, bytes), (tuple, bytes), (cabc.Set, bytes),
+                                                   (cabc.Sequence, bytes)]
     try:
         TypeParser(G.build_type(T), not_coercible=nc, superclass_auto_cast=False).check_type(
             G.build_type(S))
